@@ -374,6 +374,29 @@ impl PeerSession {
         Ok((PacketView::from_packet(packet), PeerSession(session)))
     }
 
+    /// Like `answer_challenge`, with arbitrary bytes in the place of the id-signature.
+    pub fn answer_challenge_with_sig(
+        remote: &NodeContact,
+        sig: Vec<u8>,
+        record: Option<Enr>,
+        claimed_src: &NodeId,
+        challenge: &[u8],
+        message: &[u8],
+    ) -> Result<(PacketView, PeerSession), String> {
+        let challenge = ChallengeData::try_from(challenge).map_err(|_| "challenge size")?;
+        let (packet, session) = Session::verif_encrypt_with_header_sig(
+            remote,
+            sig,
+            record,
+            claimed_src,
+            ProtocolIdentity::default(),
+            &challenge,
+            message,
+        )
+        .map_err(|e| format!("{e:?}"))?;
+        Ok((PacketView::from_packet(packet), PeerSession(session)))
+    }
+
     /// Responder side: accepts the handshake packet `hs` that answers our WHOAREYOU whose
     /// authenticated data was `challenge`.
     pub fn accept_handshake(
